@@ -178,7 +178,7 @@ def spliceAll (start : Nat) (cs : List (PqModel.Layout.ChunkMeta × Nat)) : Opti
   let showB : Option (Nat × Nat) → String := fun b => match b with | none => "n" | some (o, l) => s!"{o}.{l}"
   some s!"{";".intercalate (metas.map showChunkMeta)} {",".intercalate (blooms.map showB)}"
 
-/-! `copy.splicev <start> <chunks>` -> `ok <chunks'> <blooms>` | `err layout`
+/-! `copy.splicev <start> <chunks>` -> `ok <chunks'> <blooms> rg=<file_offset>,<total_byte_size>,<total_compressed_size>,<num_rows>` | `err layout`
   the whole metadata of a row group all of whose columns are spliced (`SpliceMeta.spliceRowGroupBlooms`)
   chunks : `;`-joined `<layout>~<values>`; layout as in `copy.splice` (with bloomLength)
   values : `:`-joined nullPages(0/1 string|-) mins maxs (`.`-joined hex, `e` = empty bytes, `-` = no entry)
@@ -245,8 +245,9 @@ def parseSrcChunkV? (s : String) : Option (PqModel.SpliceMeta.FullMeta × Nat) :
 
 def spliceAllV (start : Nat) (cs : List (PqModel.SpliceMeta.FullMeta × Nat)) : Option String := do
   let r ← PqModel.SpliceMeta.spliceRowGroupBlooms start cs
+  let t := PqModel.SpliceMeta.rowGroupTotals start (r.map (·.1))
   let showB : Option (Nat × Nat) → String := fun b => match b with | none => "n" | some (o, l) => s!"{o}.{l}"
-  some s!"{";".intercalate (r.map fun mb => showChunkMeta mb.1.layout ++ "~" ++ showValues mb.1)} {",".intercalate (r.map fun mb => showB mb.2)}"
+  some s!"{";".intercalate (r.map fun mb => showChunkMeta mb.1.layout ++ "~" ++ showValues mb.1)} {",".intercalate (r.map fun mb => showB mb.2)} rg={t.fileOffset},{t.totalByteSize},{t.totalCompressedSize},{t.numRows}"
 
 def handle (toks : List String) : Option String :=
   match toks with
